@@ -379,21 +379,26 @@ static void h_op(void)
     if (p) free(p); if (pe) free(pe);
   }
   else if (!strcmp(op, "sqroundtrip")) {
-    /* esl_sq_CreateFrom(text) -> esl_sq_Digitize -> [esl_sq_ReverseComplement] -> esl_sq_Textize */
-    unsigned char *s = h_unhex(h_arg("hex") ? h_arg("hex") : "-", &n); ESL_SQ *sq; int st1, st2 = eslOK, st3 = eslOK;
-    int rc = (int) h_argi("rc", 0);
+    /* esl_sq_CreateFrom(text [, ss]) -> esl_sq_Digitize [-> esl_sq_Digitize again on the same object] -> [esl_sq_ReverseComplement]
+     * -> esl_sq_Textize; prints the sequence, the ss annotation and the start/end coordinates */
+    unsigned char *s = h_unhex(h_arg("hex") ? h_arg("hex") : "-", &n), *ss = NULL; ESL_SQ *sq; int st1, st1b = eslOK, st2 = eslOK, st3 = eslOK;
+    int rc = (int) h_argi("rc", 0), retry = (int) h_argi("retry", 0); int64_t nss = 0; char r2[32] = "";
     if ((int64_t) strlen((char *) s) != n) { free(s); h_out("bad-op"); return; }
-    sq = esl_sq_CreateFrom("x", (char *) s, NULL, NULL, NULL);
+    if (h_arg("ss")) { ss = h_unhex(h_arg("ss"), &nss); if (nss != n || (int64_t) strlen((char *) ss) != n) { free(s); free(ss); h_out("bad-op"); return; } }
+    sq = esl_sq_CreateFrom("x", (char *) s, NULL, NULL, (char *) ss);
     st1 = esl_sq_Digitize(A, sq);
+    if (retry) { st1b = esl_sq_Digitize(A, sq); sprintf(r2, " dig2=%s", h_status(st1b)); }
     if (st1 == eslOK) {
       char *dh = strdup(h_hex(sq->dsq, sq->n + 2));
       if (rc) st2 = esl_sq_ReverseComplement(sq);
       if (!h_exception_seen) st3 = esl_sq_Textize(sq);
-      if (h_exception_seen) h_out("dig=ok dsq=%s exception %s", dh, h_status(h_exception_seen));
-      else h_out("dig=ok dsq=%s rc=%s txt=%s seq=%s", dh, h_status(st2), h_status(st3), h_hex(sq->seq, sq->n));
+      if (h_exception_seen) h_out("dig=ok%s dsq=%s exception %s", r2, dh, h_status(h_exception_seen));
+      else h_out("dig=ok%s dsq=%s rc=%s txt=%s seq=%s ss=%s se=%" PRId64 ",%" PRId64, r2, dh, h_status(st2), h_status(st3), h_hex(sq->seq, sq->n),
+                 sq->ss ? h_hex(sq->ss, (int64_t) strlen(sq->ss)) : "null", sq->start, sq->end);
       free(dh);
-    } else h_out("dig=%s seq=%s", h_status(st1), sq->seq ? h_hex(sq->seq, sq->n) : "null");
-    esl_sq_Destroy(sq); free(s);
+    } else h_out("dig=%s%s seq=%s ss=%s se=%" PRId64 ",%" PRId64, h_status(st1), r2, sq->seq ? h_hex(sq->seq, sq->n) : "null",
+                 sq->ss ? h_hex(sq->ss, (int64_t) strlen(sq->ss)) : "null", sq->start, sq->end);
+    esl_sq_Destroy(sq); free(s); if (ss) free(ss);
   }
   else if (!strcmp(op, "sqrevtext")) {
     /* text-mode esl_sq_ReverseComplement */
